@@ -67,7 +67,7 @@ def extract_witness(ctx, name, lib_rs):
     d = _mk(ctx, name, lib_rs)
     out = tempfile.mkdtemp(prefix='wfacts_', dir=ctx.scratch)
     extract(d, out, extra=())
-    c = facts.load(out, name)
+    c = facts.load(out, name, extra_renames=list(ctx.cad.j.get('module_renames', [])) + list(ctx.mac.j.get('module_renames', [])))
     c.siblings = [ctx.cad, ctx.mac]
     from . import symb
     symb.set_crates([ctx.cad, ctx.mac, c])
